@@ -22,6 +22,23 @@ EXPLANATION = (
 NOT_DECIDED = ("measured stack depth and live heap per iteration (run-time quantities); equality of the loop's result "
                "with the bounded iteration.")
 
+
+def _fresh_each_turn(f, loop, b, t):
+    """The container a push / insert in a loop writes to is created inside the loop, on every path to the write: it holds one
+    turn's items (the operands of one call), not something kept from turn to turn."""
+    root = mir.trace_access(f, t["args"][0])[0] if t.get("args") else None
+    if root is None or root <= f.arg_count:
+        return False
+    dom = f.dominators()
+    for d in mir.defs_of(f).get(root, []):
+        db = d[1]
+        if db in loop and db in dom[b] and db != b:
+            # the definition itself is not inside an inner loop that also contains the write (that would be accumulation
+            # within the turn only, which is bounded by the call's operand count anyway)
+            return True
+    return False
+
+
 INTERP = "interpreter::interpreter::Interpreter::"
 EVAL_SCC = ("eval_expression", "apply_procedure", "eval_procedure_call", "apply_scheme_procedure",
             "eval_tail_expression", "eval_owned_tail_expression", "read_literal")
@@ -252,7 +269,8 @@ def run(ctx):
             # -------------------------------------------------------------- C02-frames-dropped
             ctx.rule("C02-frames-dropped", "no per-iteration accumulation in the trampoline")
             acc = [callee(t) for b, t in ap.calls(body) if callee_matches(t, "Vec::push", "HashMap::insert", "Extend>::extend",
-                                                                          "VecDeque::push_back", "SmallVec::push", "Vec::insert")]
+                                                                          "VecDeque::push_back", "SmallVec::push", "Vec::insert")
+                   and not _fresh_each_turn(ap, body, b, t)]
             ctx.inst("C02-frames-dropped", "loop-body", {"blocks": len(body), "accumulating_calls": acc})
             if acc:
                 ctx.report("C02-frames-dropped", "accumulates", "the trampoline accumulates per iteration via %s" % acc, where_of(ap))
@@ -267,7 +285,8 @@ def run(ctx):
     ctx.rule("C02-frames-dropped", "no per-iteration accumulation in the trampoline")
     lb = ap.loop_blocks()
     acc = [callee(t) for b, t in ap.calls(lb) if callee_matches(t, "Vec::push", "HashMap::insert", "Extend>::extend", "HashSet::insert",
-                                                                "VecDeque::push_back", "SmallVec::push", "Vec::insert")]
+                                                                "VecDeque::push_back", "SmallVec::push", "Vec::insert")
+           and not _fresh_each_turn(ap, lb, b, t)]
     ctx.inst("C02-frames-dropped", "trampoline-loops", {"blocks": len(lb), "accumulating_calls": acc})
     if acc:
         ctx.report("C02-frames-dropped", "accumulates", "the trampoline accumulates per iteration via %s" % acc, where_of(ap))
